@@ -1,0 +1,67 @@
+//go:build verif
+
+package outbox
+
+import (
+	"context"
+	"fmt"
+
+	partOutboxEntry "github.com/jdillenkofer/pithos/internal/storage/database/repository/partoutboxentry"
+	"github.com/jdillenkofer/pithos/internal/storage/metadatapart/partstore"
+)
+
+// The declarations in this file exist only in builds with the "verif" tag.
+// They are thin exported wrappers around the unexported steps of the outbox
+// worker so that the external verification harness can own the flush schedule
+// (claim / replay / finalize / release as separate steps, two worker
+// identities over one database). They change no behaviour.
+
+// VerifWorker exposes the worker steps of one outbox part store instance.
+type VerifWorker struct {
+	obs *outboxPartStore
+}
+
+// VerifWorkerOf returns the worker view of an outbox part store.
+func VerifWorkerOf(ps partstore.PartStore) (*VerifWorker, error) {
+	obs, ok := ps.(*outboxPartStore)
+	if !ok {
+		return nil, fmt.Errorf("not an outbox part store: %T", ps)
+	}
+	return &VerifWorker{obs: obs}, nil
+}
+
+// ClaimOwner returns the identity the instance claims entries with.
+func (w *VerifWorker) ClaimOwner() string { return w.obs.claimOwner }
+
+// OutboxId returns the outbox id of the instance.
+func (w *VerifWorker) OutboxId() string { return w.obs.outboxId }
+
+// Claim is claimNextOutboxEntry.
+func (w *VerifWorker) Claim(ctx context.Context) (*partOutboxEntry.Entity, bool, error) {
+	return w.obs.claimNextOutboxEntry(ctx)
+}
+
+// ReplayPut is replayPutPart.
+func (w *VerifWorker) ReplayPut(ctx context.Context, entry *partOutboxEntry.Entity) error {
+	return w.obs.replayPutPart(ctx, entry)
+}
+
+// ReplayDelete is replayDeletePart.
+func (w *VerifWorker) ReplayDelete(ctx context.Context, entry *partOutboxEntry.Entity) error {
+	return w.obs.replayDeletePart(ctx, entry)
+}
+
+// Finalize is finalizePartOutboxEntry.
+func (w *VerifWorker) Finalize(ctx context.Context, entry *partOutboxEntry.Entity) (bool, error) {
+	return w.obs.finalizePartOutboxEntry(ctx, entry)
+}
+
+// Release is releasePartOutboxEntry.
+func (w *VerifWorker) Release(ctx context.Context, entry *partOutboxEntry.Entity) (bool, error) {
+	return w.obs.releasePartOutboxEntry(ctx, entry)
+}
+
+// ProcessAvailable is maybeProcessOutboxEntries (one pass of the worker loop body).
+func (w *VerifWorker) ProcessAvailable(ctx context.Context) {
+	w.obs.maybeProcessOutboxEntries(ctx)
+}
